@@ -80,6 +80,32 @@ def gen_procfull(rnd, idn):
                 shards=shards, active=list(range(1, new + 1)), explore=explore, failScale=0)
 
 
+def gen_realistic(rnd, idn):
+    """Directed family: numbers of the size kvass is run with (limits of 100 000 and 50 000 series) instead of the small
+    units of the other families, with shards that are nearly - within a fraction of a percent - full and an unscraped
+    target that fits into what is left of some of them: ratios, percentages and rounding behave differently out there."""
+    maxProc = 100000
+    maxHead = rnd.choice([0, 50000])
+    # the relief thresholds of the specification are integer arithmetic: only limits for which the code's float arithmetic gives the same
+    for num in (11, 14, 16, 18, 2, 5):
+        assert int(float(50000) * (num / 10.0)) == (50000 * num) // 10
+    n = rnd.choice([1, 2, 3])
+    shards, used = [], 0
+    for i in range(n):
+        free = rnd.choice([120, 300, 499, 500, 950, 5000, 60000])
+        tot = maxProc - free
+        ser = min(tot, (maxHead - rnd.choice([150, 400, 20000])) if maxHead else rnd.choice([100, 40000]))
+        e = dict(t=i + 1, state='', health='up', times=rnd.choice([3, 7]), series=ser, total=tot)
+        shards.append(dict(mode='ok', report=[e], head=ser + rnd.choice([0, 0, 50]), proc=tot, idle='none', postFail=False))
+    new = n + 1
+    x = dict(t=new, state='', health='up', times=0, series=rnd.choice([10, 100, 149]), total=rnd.choice([100, 119, 299, 400]))
+    explore = [x] + [dict(t=s['report'][0]['t'], state='', health='up', times=0, series=s['report'][0]['series'], total=s['report'][0]['total'])
+                     for s in shards if rnd.random() < 0.5]
+    return dict(id=idn, fam='realistic', opts=dict(maxHead=maxHead, maxProc=maxProc, minShard=rnd.choice([0, 1]), maxShard=rnd.choice([n, n + 1, 9]),
+                                                   maxIdle=rnd.choice([0, 0, 1]), noAlleviate=False),
+                shards=shards, active=list(range(1, new + 1)), explore=explore, failScale=0)
+
+
 def gen_packing(rnd, idn):
     """Directed family (4 shards): two front shards with some room, a shard that can be emptied into them only if its two
     targets are packed in the right order, and an idle shard behind it whose idle time has expired."""
@@ -155,7 +181,7 @@ def gen_input(rnd, idn, maxN=3, maxK=3):
         fam = 'oversized'
     if fam == 'fullrelief' and maxN >= 3 and maxK >= 3:
         x = rnd.random()
-        return gen_fullrelief(rnd, idn) if x < 0.5 else gen_procfull(rnd, idn) if x < 0.85 else gen_packing(rnd, idn)
+        return gen_fullrelief(rnd, idn) if x < 0.4 else gen_procfull(rnd, idn) if x < 0.7 else gen_realistic(rnd, idn) if x < 0.85 else gen_packing(rnd, idn)
     n = min(maxN, rnd.choice([1, 2, 2, 3, 3, 3] if maxN == 3 else [1, 2, 3, 3, 4, 4]))
     if fam in ('scaledown', 'unsynced', 'relief'):
         n = min(maxN, rnd.choice([2, 3, 3, maxN]))
